@@ -329,6 +329,28 @@ pub fn datagrams(tier: Tier, seed: u64) -> Vec<(&'static str, Vec<u8>)> {
             }
         }
     }
+    // the 12-byte frame header of a valid IETF request: every single bit flipped, every byte replaced
+    // by 00 / ff / its lower-case form, the magic truncated to its first word
+    {
+        let base = ietf_request(&VER_IETF13, None, &nonce(0x7f0, 32), 1024);
+        for bit in 0..96 {
+            let mut d = base.clone();
+            d[bit / 8] ^= 1 << (bit % 8);
+            out.push(("frame-header", d));
+        }
+        for pos in 0..12 {
+            for v in [0x00u8, 0xff, base[pos].to_ascii_lowercase(), b'X'] {
+                if base[pos] != v {
+                    let mut d = base.clone();
+                    d[pos] = v;
+                    out.push(("frame-header", d));
+                }
+            }
+        }
+        let mut d = base.clone();
+        d[4..8].copy_from_slice(&[0, 0, 0, 0]);
+        out.push(("frame-header", d));
+    }
     // every header word of a valid request of each shape swept over its range (shared with C08)
     for (_, d) in super::c08::header_sweeps() {
         out.push(("header-sweep", d));
